@@ -411,7 +411,18 @@ func c20(c *core.Ctx) {
 		c20Decoded(k, mu, k.R.Bytes(32), "mutated", plainDec)
 	})
 	c.Family("encode", c.N(6000, 1000000), func(k *core.Case) {
-		c20Encode(k, gen.Msg(k.R, gen.Opt{AllowBig: k.Index%31 == 0, AllowEmpty: true}))
+		m := gen.Msg(k.R, gen.Opt{AllowBig: k.Index%31 == 0, AllowEmpty: true})
+		if k.Index%6 == 4 {
+			// the application recycles the EAP payload object of the method exchange for the final Success / Failure: only
+			// the code (and identifier) change, the method data stay attached
+			for i := range m.Payloads {
+				if e := m.Payloads[i].EAP; m.Payloads[i].Kind == abs.PEAP && e != nil && e.Method != nil {
+					e.Code = uint8(k.R.Pick(3, 4))
+					k.Count("eap_payload_objects_recycled_for_success_or_failure", 1)
+				}
+			}
+		}
+		c20Encode(k, m)
 	})
 	// determinism on a message that was decoded and then amended through the API (EAP-AKA' attributes added after reception)
 	c.Family("encode-amended-decoded", c.N(3000, 300000), func(k *core.Case) {
